@@ -481,8 +481,18 @@ func c17StorageRun(r *Rng, it int, vInit, aInit []byte, viol func(kind, what str
 		tag += fmt.Sprintf(" late track %s from segment %d", tracks[lateTrack].name, lateFrom)
 		count("receiver-storage-runs.late-track")
 	}
+	// an outage: one round that no track delivers (the numbers go on afterwards)
+	gapAt := -1
+	if r.Intn(3) == 0 {
+		gapAt = r.Range(3, 6)
+		tag += fmt.Sprintf(" no segment %d", gapAt)
+		count("receiver-storage-runs.gap")
+	}
 	setTag(tag)
 	for k := 0; k < nSegs && !bad; k++ {
+		if k == gapAt {
+			continue
+		}
 		// at every moment the published MPD lists stored files only: checked after every single upload (an upload deletes the
 		// file that leaves the window before the next MPD is written) unless the MPD on disk is more than one round behind
 		checkListed := func(moment string) {
@@ -570,6 +580,10 @@ func c17StorageRun(r *Rng, it int, vInit, aInit []byte, viol func(kind, what str
 			}
 			sort.Ints(leftover)
 			sort.Ints(window)
+			if len(window) > 0 && window[0]+maxBuf <= window[len(window)-1] {
+				viol("storage-outside-window", fmt.Sprintf("track %s still stores number %d, more than the window of %d numbers behind the newest stored number %d (stored: %v)", t.name, window[0], maxBuf, window[len(window)-1], window), []string{tag}, nil)
+				break
+			}
 			if len(window)+len(leftover) > maxBuf {
 				viol("storage-window", fmt.Sprintf("track %s keeps %d media segments %v %v, the window implied by timeShiftBufferDepth=%d s is %d", t.name, len(window)+len(leftover), leftover, window, tsbd, maxBuf), []string{tag}, nil)
 				break
